@@ -8,6 +8,9 @@ import Dmn.Lemmas.DecModulo
 import Dmn.Lemmas.DecFeel
 import Dmn.Lemmas.Transcend
 import Dmn.Lemmas.DecCohort
+import Dmn.Lemmas.DecCongr
+import Dmn.Lemmas.DecModSign
+import Dmn.Lemmas.DecModSmall
 
 /-!
 # C02 — FEEL numbers compute as IEEE 754-2008 decimal128 (34 digits, half-even)
@@ -341,6 +344,101 @@ theorem modulo_counterexample_fraction :
     ¬ ModuloSpec ⟨false, 2999999999999999999999999999999999, 0⟩ ⟨false, 3, -1⟩ (.fin ⟨false, 0, 0⟩) := by
   decide +kernel
 
+/-- **a simple sufficient condition for `modExact`** (hence for `modulo_correct_partial` and
+`modulo_sign_partial`): both operands, written at their common exponent `min a.exp b.exp`, have at
+most 33 digits, and the exponent of the divisor is at most 6078.  Then the floor of the quotient
+rounded to 34 digits is the floor of the exact quotient (the next integer above `A/B` is at least
+`1/B` away — farther than half a unit of a 34-digit rounding when `A, B < 10^33`), and the product
+`b·⌊a/b⌋` has at most 34 digits.  (33, not 34: `modulo_counterexample` has a 34-digit dividend.) -/
+theorem modExact_of_small (a b : D128) (wb : WF b) (hb0 : b.coeff ≠ 0)
+    (hA : a.coeff * 10 ^ (a.exp - min a.exp b.exp).toNat < 10 ^ 33)
+    (hB : b.coeff * 10 ^ (b.exp - min a.exp b.exp).toNat < 10 ^ 33)
+    (hbe : b.exp ≤ 6078) : modExact a b = true :=
+  modExact_of_small_aux a b wb hb0 hA hB hbe (div_correct a b wb.1)
+
+example : WF ⟨true, 32, -1⟩ ∧ (⟨true, 32, -1⟩ : D128).coeff ≠ 0 ∧
+    (⟨false, 1234567890123456789, 3⟩ : D128).coeff
+      * 10 ^ ((⟨false, 1234567890123456789, 3⟩ : D128).exp - min (3 : Int) (-1)).toNat < 10 ^ 33 ∧
+    (⟨true, 32, -1⟩ : D128).coeff * 10 ^ ((⟨true, 32, -1⟩ : D128).exp - min (3 : Int) (-1)).toNat < 10 ^ 33 ∧
+    (⟨true, 32, -1⟩ : D128).exp ≤ 6078 := by decide
+
+/-- the mathematical modulo (the specification side, `exactMod`) has the sign of the divisor and
+is smaller than the divisor in magnitude: `0 ≤ m < b` for `b > 0`, `b < m ≤ 0` for `b < 0` -/
+theorem exactMod_sign (a b : D128) :
+    (0 < scaled b (min a.exp b.exp) → 0 ≤ exactMod a b ∧ exactMod a b < scaled b (min a.exp b.exp)) ∧
+    (scaled b (min a.exp b.exp) < 0 → scaled b (min a.exp b.exp) < exactMod a b ∧ exactMod a b ≤ 0) :=
+  fmod_bounds _ _
+
+example : 0 < scaled ⟨false, 5, 0⟩ (min (⟨true, 12, 0⟩ : D128).exp (⟨false, 5, 0⟩ : D128).exp) ∧
+    scaled ⟨true, 32, -1⟩ (min (⟨false, 105, -1⟩ : D128).exp (⟨true, 32, -1⟩ : D128).exp) < 0 ∧
+    exactMod ⟨true, 12, 0⟩ ⟨false, 5, 0⟩ = 3 ∧ exactMod ⟨false, 105, -1⟩ ⟨true, 32, -1⟩ = -23 := by decide
+
+/-- **sign rule of `modulo` inside the exact region**: whenever `modExact a b`, a finite answer of
+`modulo(a, b)` is a zero or has the sign of the divisor (outside the region it need not:
+`modulo_counterexample` is `-1` for the divisor `2`) -/
+theorem modulo_sign_partial (a b : D128) (h : modExact a b = true) (hb0 : b.coeff ≠ 0) (d : D128)
+    (hd : FNum.modulo (.fin a) (.fin b) = .fin d) : d.coeff = 0 ∨ d.neg = b.neg := by
+  obtain ⟨r, hs, hr⟩ := modulo_correct_partial a b h
+  rw [hd] at hr
+  cases r with
+  | nan => exact absurd hr (by simp [D128R.reduce])
+  | inf s => exact absurd hr (by simp [D128R.reduce])
+  | fin d0 =>
+    have hdd : d = D128.reduce d0 := by
+      have := hr
+      simp only [D128R.reduce, D128R.fin.injEq] at this
+      exact this
+    rw [hdd, reduce_neg, reduce_coeff_zero]
+    unfold ModuloSpec at hs
+    by_cases h0 : exactMod a b = 0
+    · rw [if_pos h0] at hs
+      rcases hs with x | x
+      · exact Or.inl x.1
+      · exact Or.inl x.1
+    · rw [if_neg h0] at hs
+      refine Or.inr ?_
+      have hn : d0.neg = decide (exactMod a b < 0) := hs.1
+      rw [hn]
+      obtain ⟨s1, s2⟩ := exactMod_sign a b
+      have hneg := sint_mul_neg_iff b.neg b.coeff (10 ^ (b.exp - min a.exp b.exp).toNat) (pow10_pos _)
+      have hzero := sint_mul_zero_iff b.neg b.coeff (10 ^ (b.exp - min a.exp b.exp).toNat) (pow10_pos _)
+      have hsc : scaled b (min a.exp b.exp) = sint b.neg (b.coeff * 10 ^ (b.exp - min a.exp b.exp).toNat) := rfl
+      rw [← hsc] at hneg hzero
+      cases hbn : b.neg
+      · have : ¬ scaled b (min a.exp b.exp) < 0 := by
+          rw [hneg, hbn]; simp
+        have hpos : 0 < scaled b (min a.exp b.exp) := by
+          have : scaled b (min a.exp b.exp) ≠ 0 := fun x => hb0 (hzero.mp x)
+          omega
+        have := (s1 hpos).1
+        simp only [decide_eq_false_iff_not]
+        omega
+      · have hlt : scaled b (min a.exp b.exp) < 0 := hneg.mpr ⟨hbn, hb0⟩
+        have := (s2 hlt).2
+        simp only [decide_eq_true_eq]
+        omega
+
+example : modExact ⟨true, 12, 0⟩ ⟨false, 5, 0⟩ = true ∧ (⟨false, 5, 0⟩ : D128).coeff ≠ 0 ∧
+    FNum.modulo (.fin ⟨true, 12, 0⟩) (.fin ⟨false, 5, 0⟩) = .fin ⟨false, 3, 0⟩ ∧
+    modExact ⟨false, 105, -1⟩ ⟨true, 32, -1⟩ = true ∧
+    FNum.modulo (.fin ⟨false, 105, -1⟩) (.fin ⟨true, 32, -1⟩) = .fin ⟨true, 23, -1⟩ := by decide +kernel
+
+/-- `modulo(a, b)` **is** the mathematical modulo, correctly rounded, with the sign
+of the divisor, for all operands of at most 33 digits at their common exponent -/
+theorem modulo_correct_small (a b : D128) (wb : WF b) (hb0 : b.coeff ≠ 0)
+    (hA : a.coeff * 10 ^ (a.exp - min a.exp b.exp).toNat < 10 ^ 33)
+    (hB : b.coeff * 10 ^ (b.exp - min a.exp b.exp).toNat < 10 ^ 33)
+    (hbe : b.exp ≤ 6078) :
+    (∃ r, ModuloSpec a b r ∧ FNum.modulo (.fin a) (.fin b) = r.reduce) ∧
+    (∀ d, FNum.modulo (.fin a) (.fin b) = .fin d → d.coeff = 0 ∨ d.neg = b.neg) :=
+  ⟨modulo_correct_partial a b (modExact_of_small a b wb hb0 hA hB hbe),
+    fun d hd => modulo_sign_partial a b (modExact_of_small a b wb hb0 hA hB hbe) hb0 d hd⟩
+
+example : WF ⟨false, 5, 0⟩ ∧ (⟨false, 5, 0⟩ : D128).coeff ≠ 0 ∧
+    (⟨true, 12, 0⟩ : D128).coeff * 10 ^ ((⟨true, 12, 0⟩ : D128).exp - min (0 : Int) 0).toNat < 10 ^ 33 ∧
+    (⟨false, 5, 0⟩ : D128).coeff * 10 ^ ((⟨false, 5, 0⟩ : D128).exp - min (0 : Int) 0).toNat < 10 ^ 33 ∧
+    (⟨false, 5, 0⟩ : D128).exp ≤ 6078 := by decide
+
 /-- `odd` and `even` speak about the value, whatever the exponent (after fix 5501a2e, which
 repaired F21 `even(1E+40) = false` and F22 `odd(1.0) = false`): `odd a` iff the value is an odd
 integer, `even a` iff it is an even integer -/
@@ -620,6 +718,111 @@ theorem result_reduce_congr (a b : D128) (ha : WF a) (hb : WF b) (h : SameValue 
   rw [D128.reduce_congr a b ha hb h hn]
 
 example : WF ⟨true, 250, -2⟩ ∧ WF ⟨true, 25, -1⟩ ∧ SameValue ⟨true, 250, -2⟩ ⟨true, 25, -1⟩ := by decide
+
+/-! ## representation independence of the arithmetic: operands of equal value give equal results
+
+`SameValue a a' ∧ a.neg = a'.neg`: two triples of one value and sign (the sign matters for the
+zeros only: `-0` and `+0` have one value, but `1 / -0` and `1 / +0` differ).  The route: the
+specification of every operation speaks about the exact value only (`roundsHalfEven_value_congr`),
+and two correct roundings of one exact value have one value (`rounding_unique`): after the `reduce`
+of `number.rs` they are one triple (`result_reduce_congr`). -/
+
+/-- **uniqueness of the correctly rounded result**: two results that meet `RoundsHalfEven` for one
+exact value `(-1)^neg·(N/D)·10^e` — nearest at 34 digits, ties to even, the finer spacing below a
+power of ten, subnormals at exponent −6176, ±Infinity on overflow — are finite with one sign and
+value, or the same infinity; reduced they are equal.  (A finite result excludes overflow: the tie at
+`(10^34 − 1/2)·10^6111` cannot go to the odd `10^34 − 1`.) -/
+theorem rounding_unique (neg : Bool) (N D : Nat) (e : Int) (hD : 0 < D) (r r' : D128R)
+    (h : RoundsHalfEven neg N D e r) (h' : RoundsHalfEven neg N D e r') : r.reduce = r'.reduce :=
+  roundsHalfEven_unique neg N D e hD r r' h h'
+
+/-- non-vacuity, with two different triples: the exact value `10^34` is met by `1000…0E+1`
+(34 digits) and by `1E+34`, which reduce to one triple -/
+example : (0 : Nat) < 1 ∧ RoundsHalfEven false 1 1 34 (.fin ⟨false, 1000000000000000000000000000000000, 1⟩) ∧
+    RoundsHalfEven false 1 1 34 (.fin ⟨false, 1, 34⟩) := by decide +kernel
+
+/-- `RoundsHalfEven` depends on the exact value only, however it is written as a fraction times a
+power of ten: `N/D·10^e = N'/D'·10^e'` (cross-multiplied at a scale `s` below both exponents) -/
+theorem rounding_value_congr (neg : Bool) (N D N' D' : Nat) (e e' s : Int) (hD : 0 < D) (hD' : 0 < D')
+    (hs : s ≤ e) (hs' : s ≤ e') (hv : N * D' * 10 ^ (e - s).toNat = N' * D * 10 ^ (e' - s).toNat) (r : D128R) :
+    RoundsHalfEven neg N D e r ↔ RoundsHalfEven neg N' D' e' r :=
+  roundsHalfEven_value_congr neg N D N' D' e e' s hD hD' hs hs' hv r
+
+example : (0 : Nat) < 3 ∧ (0 : Nat) < 30 ∧ (-2 : Int) ≤ 0 ∧ (-2 : Int) ≤ -1 ∧
+    1 * 30 * 10 ^ ((0 : Int) - (-2)).toNat = 100 * 3 * 10 ^ ((-1 : Int) - (-2)).toNat := by decide
+
+/-- `a + b` depends on the values of its operands only (all 34 × 34 representations of the two
+operands give one `FeelNumber`; overflow to ±Infinity included) -/
+theorem add_congr (a a' b b' : D128) (ha : SameValue a a') (na : a.neg = a'.neg)
+    (hb : SameValue b b') (nb : b.neg = b'.neg) :
+    FNum.add (.fin a) (.fin b) = FNum.add (.fin a') (.fin b') :=
+  addSpec_congr a a' b b' ha na hb nb _ _ (add_correct a b) (add_correct a' b')
+
+example : SameValue ⟨false, 1001, 1⟩ ⟨false, 10010, 0⟩ ∧ SameValue ⟨true, 5, 0⟩ ⟨true, 500, -2⟩ ∧
+    FNum.add (.fin ⟨false, 1001, 1⟩) (.fin ⟨true, 5, 0⟩) = .fin ⟨false, 10005, 0⟩ ∧
+    FNum.add (.fin ⟨false, 10010, 0⟩) (.fin ⟨true, 500, -2⟩) = .fin ⟨false, 10005, 0⟩ := by decide
+
+/-- `a - b` depends on the values only -/
+theorem sub_congr (a a' b b' : D128) (ha : SameValue a a') (na : a.neg = a'.neg)
+    (hb : SameValue b b') (nb : b.neg = b'.neg) :
+    FNum.sub (.fin a) (.fin b) = FNum.sub (.fin a') (.fin b') :=
+  addSpec_congr a a' (D128.flip b) (D128.flip b') ha na (flip_sameValue b b' hb)
+    (by show (!b.neg) = (!b'.neg); rw [nb]) _ _ (add_correct a (D128.flip b)) (add_correct a' (D128.flip b'))
+
+example : SameValue ⟨false, 1, 1⟩ ⟨false, 10, 0⟩ ∧ SameValue ⟨false, 10, 0⟩ ⟨false, 100, -1⟩ ∧
+    FNum.sub (.fin ⟨false, 1, 1⟩) (.fin ⟨false, 10, 0⟩) = FNum.sub (.fin ⟨false, 10, 0⟩) (.fin ⟨false, 100, -1⟩) := by decide
+
+/-- `a * b` depends on the values only -/
+theorem mul_congr (a a' b b' : D128) (ha : SameValue a a') (na : a.neg = a'.neg)
+    (hb : SameValue b b') (nb : b.neg = b'.neg) :
+    FNum.mul (.fin a) (.fin b) = FNum.mul (.fin a') (.fin b') :=
+  mulSpec_congr a a' b b' ha na hb nb _ _ (mul_correct a b) (mul_correct a' b')
+
+example : SameValue ⟨false, 12, 0⟩ ⟨false, 1200, -2⟩ ∧ SameValue ⟨true, 5, -1⟩ ⟨true, 50, -2⟩ ∧
+    FNum.mul (.fin ⟨false, 12, 0⟩) (.fin ⟨true, 5, -1⟩) = .fin ⟨true, 6, 0⟩ ∧
+    FNum.mul (.fin ⟨false, 1200, -2⟩) (.fin ⟨true, 50, -2⟩) = .fin ⟨true, 6, 0⟩ := by decide
+
+/-- `a / b` depends on the values only (and, for a zero operand, on its sign: `0/0` is NaN and `x/0`
+an infinity for every representation) -/
+theorem div_congr (a a' b b' : D128) (ha : SameValue a a') (na : a.neg = a'.neg)
+    (hb : SameValue b b') (nb : b.neg = b'.neg) (wb : b.coeff < 10 ^ 34) (wb' : b'.coeff < 10 ^ 34) :
+    FNum.div (.fin a) (.fin b) = FNum.div (.fin a') (.fin b') :=
+  divSpec_congr a a' b b' ha na hb nb _ _ (div_correct a b wb) (div_correct a' b' wb')
+
+example : SameValue ⟨false, 1, 0⟩ ⟨false, 1000, -3⟩ ∧ SameValue ⟨false, 3, 0⟩ ⟨false, 30, -1⟩ ∧
+    FNum.div (.fin ⟨false, 1, 0⟩) (.fin ⟨false, 3, 0⟩) = .fin ⟨false, 3333333333333333333333333333333333, -34⟩ ∧
+    FNum.div (.fin ⟨false, 1000, -3⟩) (.fin ⟨false, 30, -1⟩) = .fin ⟨false, 3333333333333333333333333333333333, -34⟩ := by
+  decide
+
+/-- `floor(a)` depends on the value only -/
+theorem floor_congr (a a' : D128) (wa : WF a) (wa' : WF a') (ha : SameValue a a') (na : a.neg = a'.neg) :
+    FNum.floor (.fin a) = FNum.floor (.fin a') := by
+  show D128R.fin (D128.reduce (D128.floor a)) = D128R.fin (D128.reduce (D128.floor a'))
+  rw [D128.reduce_congr _ _ (floor_wf a wa) (floor_wf a' wa') (floor_sameValue a a' ha)
+    (by rw [floor_neg, floor_neg, na])]
+
+example : WF ⟨true, 15, -1⟩ ∧ WF ⟨true, 1500, -3⟩ ∧ SameValue ⟨true, 15, -1⟩ ⟨true, 1500, -3⟩ ∧
+    FNum.floor (.fin ⟨true, 1500, -3⟩) = .fin ⟨true, 2, 0⟩ := by decide
+
+/-- `ceiling(a)` depends on the value only (the `+0` for arguments in `(-1, 0)` included) -/
+theorem ceiling_congr (a a' : D128) (wa : WF a) (wa' : WF a') (ha : SameValue a a') (na : a.neg = a'.neg) :
+    FNum.ceiling (.fin a) = FNum.ceiling (.fin a') := by
+  show D128R.fin (D128.reduce (D128.ceiling a)) = D128R.fin (D128.reduce (D128.ceiling a'))
+  rw [D128.reduce_congr _ _ (ceiling_wf a wa) (ceiling_wf a' wa') (ceiling_sameValue a a' ha)
+    (ceiling_neg_congr a a' ha na)]
+
+example : WF ⟨true, 5, -1⟩ ∧ WF ⟨true, 500, -3⟩ ∧ SameValue ⟨true, 5, -1⟩ ⟨true, 500, -3⟩ ∧
+    FNum.ceiling (.fin ⟨true, 500, -3⟩) = .fin ⟨false, 0, 0⟩ := by decide
+
+/-- `decimal(a, scale)` (`FeelNumber::round`, not reduced: the exponent is `−scale`) depends on the
+value only, for every scale FEEL accepts: the very same triple, or NaN for every representation -/
+theorem rescale_congr (a a' : D128) (ha : SameValue a a') (na : a.neg = a'.neg) (scale : Int)
+    (hlo : -6111 ≤ scale) (hhi : scale ≤ 6176) :
+    FNum.round (.fin a) scale = FNum.round (.fin a') scale :=
+  rescaleSpec_congr a a' ha na scale _ _ (rescale_correct a scale hlo hhi) (rescale_correct a' scale hlo hhi)
+
+example : SameValue ⟨false, 25, -1⟩ ⟨false, 2500, -3⟩ ∧ (-6111 : Int) ≤ 0 ∧ (0 : Int) ≤ 6176 ∧
+    FNum.round (.fin ⟨false, 2500, -3⟩) 0 = .fin ⟨false, 2, 0⟩ := by decide
 
 /-! ## the enclosures that judge `log` and `exp` (`Model/Transcend.lean`)
 
